@@ -27,7 +27,7 @@ def handleVerdict (line : String) : String :=
       let iters := fun (i : Nat) =>
         let a := asserts.getD i "true"
         ({ arrangeOk := decide ((i : Int) ≠ arrErr), runOk := runOk, assertOk := a != "raise", assertTrue := assertTrueOf a } : Iter)
-      let out := execute (bin != "asmfail") (bin != "short") (broken == "0") (numItersOf ni) iters
+      let out := execute (bin != "asmfail") (bin != "short" && bin != "toobig") (broken == "0") (numItersOf ni) iters
       let model := if out.ok then "ok" else "fail"
       let d := if model == res.trim then "agree" else s!"DIFF verdict:model={model}"
       -- the property, directly: OK only if the driver ran at least once to its BRK and every assert made returned true
